@@ -53,6 +53,9 @@ SECTNUM adfGet1FreeBlock ( struct AdfVolume * const vol );
 RETCODE adfUpdateBitmap ( struct AdfVolume * const vol );
 PREFIX uint32_t adfCountFreeBlocks ( const struct AdfVolume * const vol );
 
+BOOL adfHasFreeBlocks ( const struct AdfVolume * const vol,
+                        const unsigned                 n );
+
 RETCODE adfReadBitmap ( struct AdfVolume * const        vol,
                         const uint32_t                  nBlock,
                         const struct bRootBlock * const root );
